@@ -8,9 +8,15 @@
 -/
 namespace Placement
 
+/-- what a transaction is for (compared with the tables the real transaction touches) -/
+inductive Lbl
+  | getRp | getTraits | main | getProject | createProject | getUser | createUser
+  | getConsumer | getCtype | createCtype | createConsumer | getAllocs | cleanup | other
+deriving DecidableEq, Repr, Inhabited
+
 inductive Prog (σ α : Type) where
   | done : α → Prog σ α
-  | txn  : (σ → σ × Prog σ α) → Prog σ α
+  | txn  : Lbl → (σ → σ × Prog σ α) → Prog σ α
 
 namespace Prog
 variable {σ α : Type}
@@ -18,19 +24,19 @@ variable {σ α : Type}
 /-- Sequential semantics with fuel (every handler has a bounded number of transactions). -/
 def runSeq : Nat → Prog σ α → σ → σ × Option α
   | _, .done a, s => (s, some a)
-  | 0, .txn _, s => (s, none)
-  | n + 1, .txn f, s => let (s', p) := f s; runSeq n p s'
+  | 0, .txn _ _, s => (s, none)
+  | n + 1, .txn _ f, s => let (s', p) := f s; runSeq n p s'
 
 /-- Execute at most `k` transactions, then stop (process death between transactions). -/
 def runPrefix : Nat → Prog σ α → σ → σ × Prog σ α
   | 0, p, s => (s, p)
   | _, .done a, s => (s, .done a)
-  | k + 1, .txn f, s => let (s', p) := f s; runPrefix k p s'
+  | k + 1, .txn _ f, s => let (s', p) := f s; runPrefix k p s'
 
 /-- One scheduling step: request `i` performs its next transaction. -/
 def stepAt (ps : List (Prog σ α)) (i : Nat) (s : σ) : σ × List (Prog σ α) :=
   match ps[i]? with
-  | some (.txn f) => let (s', p') := f s; (s', ps.set i p')
+  | some (.txn _ f) => let (s', p') := f s; (s', ps.set i p')
   | _ => (s, ps)
 
 /-- Scheduled semantics: the schedule names which request performs its next transaction. -/
@@ -40,12 +46,19 @@ def runSched : List Nat → σ → List (Prog σ α) → σ × List (Prog σ α)
 
 def result? : Prog σ α → Option α
   | .done a => some a
-  | .txn _ => none
+  | .txn _ _ => none
 
 /-- number of transactions still to run along the path taken from `s` (with fuel) -/
 def isDone : Prog σ α → Bool
   | .done _ => true
-  | .txn _ => false
+  | .txn _ _ => false
 
 end Prog
 end Placement
+
+namespace Placement.Prog
+/-- label of the next transaction -/
+def next? {σ α : Type} : Prog σ α → Option Lbl
+  | .done _ => none
+  | .txn l _ => some l
+end Placement.Prog
